@@ -345,6 +345,9 @@ func c05(ctx *Ctx) (*Outcome, error) {
 		return nil, err
 	}
 	cases := c05Strata(ctx)
+	for i := 0; i < 20; i++ {
+		cases = append(cases, crossPackageCase(i))
+	}
 	n := ctx.N(150, 4000)
 	for i := 0; i < n; i++ {
 		r := sg.NewRng(ctx.Seed, fmt.Sprintf("C05-case-%d", i))
